@@ -8,7 +8,26 @@ the property (levels at breakpoints, betweenness inside a segment, last level
 afterwards) and - for the `def` sub-families - an `EnvGen` is built into a
 SynthDef whose bytes are decoded by the strict SCgf v2 reader
 mc/oracles/scgf.py; the unit's
-trailing inputs must be the same array (as float32)."""
+trailing inputs must be the same array (as float32).
+
+Audit widening: the synth-argument route (_as_control_input /
+_embed_as_osc_arg), positional / keyword / omitted-argument call styles, a
+backwards pass over the time grid, non-dyadic durations, negative levels,
+zero and negative constructor parameters, the offset argument, objects changed
+or copied after use (family env-derive), one envelope encoded after another
+(family env-after-other, run first), two EnvGen units fed by one Env.
+Mutations tried while auditing (all VIOLATION in the quick tier): breakpoint
+test by elapsed time instead of end time (at-breakpoint-shape8 ...), exp
+guard `<= 0.0` (at-inside-shape2), `attack_time or 0.01` in perc
+(ctor-perc-duration), swapped `level`/`curve` in the signature of linen
+(ctor-linen-positional-*), _as_control_input returning the IEnvGen layout
+(array-control-input), `loop_node` keyword renamed (encode-raises-TypeError),
+step dropping `offset` (reuse-array-interp-offset), `decay_time or 0.3` in
+adsr (ctor-adsr-duration), value-keyed memo of the array shared by all objects
+(after-other-array-release-node ...), `if not curves` in pairs
+(ctor-pairs-shape-number), `loop_level or None` in step
+(ctor-step-given-loop-node-encoded-absent), _env_at resuming from the last
+stage found (at-differs-when-evaluated-again)."""
 
 import copy
 import itertools
@@ -41,20 +60,82 @@ def _exc(e):
     return f'{type(e).__name__}: {e}'[:200]
 
 
+def _dflt(v, default):
+    return default if v == D else v
+
+
 def expected_spec(case):
     if case['f'] == 'env':
+        # documented defaults: curves 'lin' ("linear segments (default)"),
+        # nodes absent, offset 0
         return {'levels': case['levels'], 'times': case['times'],
-                'curves': case['curves'], 'rel': case['rel'],
-                'loop': case['loop'], 'offset': 0, 'dontcare': set()}
+                'curves': _dflt(case['curves'], 'lin'),
+                'rel': _dflt(case['rel'], None),
+                'loop': _dflt(case['loop'], None),
+                'offset': _dflt(case.get('offset', D), 0),
+                'dontcare': set()}
     return ref.ctor_expected(case['name'], case['args'])
 
 
-def make_env(case):
+ENV_PARAMS = ['levels', 'times', 'curves', 'release_node', 'loop_node',
+              'offset']
+ENV_KEYS = ['levels', 'times', 'curves', 'rel', 'loop', 'offset']
+POSITIONAL_ORDER = {
+    'step': ['levels', 'times', 'release_level', 'loop_level', 'offset'],
+    'pairs': ['pairs', 'curves'],
+    'xyc': ['xyc'],
+}
+
+
+def ctor_order(name):
+    if name in ref.CTOR_PARAMS:
+        return [k for k, _ in ref.CTOR_PARAMS[name]]
+    return POSITIONAL_ORDER[name]
+
+
+def split_call(order, given):
+    """Documented parameter order + explicitly given arguments -> (positional
+    list = the longest prefix of the order that is given, keyword dict = the
+    rest)."""
+    pos = []
+    for k in order:
+        if k not in given:
+            break
+        pos.append(given[k])
+    kw = {k: given[k] for k in order[len(pos):] if k in given}
+    return pos, kw
+
+
+def env_given(c):
+    given = {}
+    for key, par in zip(ENV_KEYS, ENV_PARAMS):
+        if key in c and c[key] != D:
+            given[par] = c[key]
+    return given
+
+
+def make_env(case, style=None):
+    """style None: the case's own call style (Env: positional as far as
+    arguments are given, constructors: keywords); 'kw' / 'pos' force one."""
     from sc3.synth.envelope import Env
     c = copy.deepcopy(case)     # constructors may keep/alter their arguments
+    style = style or c.get('style')
     if c['f'] == 'env':
-        return Env(c['levels'], c['times'], c['curves'], c['rel'], c['loop'])
+        given = env_given(c)
+        if style == 'kw':
+            return Env(**given)
+        pos, kw = split_call(ENV_PARAMS, given)
+        return Env(*pos, **kw)
+    if style == 'pos':
+        pos, kw = split_call(ctor_order(c['name']), c['args'])
+        return getattr(Env, c['name'])(*pos, **kw)
     return getattr(Env, c['name'])(**c['args'])
+
+
+def positional_prefix(case):
+    if case['f'] != 'ctor':
+        return 0
+    return len(split_call(ctor_order(case['name']), case['args'])[0])
 
 
 def _plain(x):
@@ -136,6 +217,8 @@ def interp_dontcare(spec):
 
 def check_case(case):
     """-> (disagreements, outcome)"""
+    if case['f'] == 'seq':
+        return check_seq(case)
     dis, outcome = _check_case(case)
     if case.get('reuse'):
         # a defect that needs one object used twice gets kinds of its own
@@ -149,7 +232,32 @@ def check_case(case):
     return dis, outcome
 
 
+def check_seq(case):
+    """ANOTHER envelope object was built, encoded (both layouts) and
+    evaluated just before: the second specification must encode and evaluate
+    as if it were alone (kinds 'after-other-...')."""
+    try:
+        other = make_env(case['first'])
+        other._envgen_format()
+        other._interpolation_format()
+        other._at(0.25)
+        other._as_control_input()
+    except Exception as e:
+        return [], {'first-raised': _exc(e)}   # checked by other families
+    dis, outcome = _check_case(case['second'])
+    out, seen = [], set()
+    for d in dis:
+        k = 'after-other-' + re.sub(r'^(ctor-[a-z]+|encode)-', 'array-',
+                                    re.sub(r'-shape\w+$', '', d[0]))
+        if k not in seen:
+            seen.add(k)
+            out.append((k,) + tuple(d[1:]))
+    return out, outcome
+
+
 def _check_case(case):
+    if case['f'] == 'derive':
+        return check_derive(case)
     dis = []
     spec = expected_spec(case)
     exp = ref.encode(spec['levels'], spec['times'], spec['curves'],
@@ -198,6 +306,22 @@ def _check_case(case):
         return dis, outcome
     arr = obs[0]
     dis += cmp_array(prefix, exp, arr, spec['dontcare'], slot_name)
+    for i in sorted(spec.get('present', ())):
+        # which node number a level index becomes is not decided, but a node
+        # that is given is not encoded as absent
+        if len(arr) == len(exp) and not (
+                _num_eq(arr[i], arr[i]) and arr[i] != ref.ABSENT):
+            dis.append((f'{prefix}-given-{slot_name(i)}-encoded-absent',
+                        'a number other than -99', arr[i], f'array {arr}'))
+
+    if not reuse:
+        # -- 1b. the same constructor call written positionally (documented
+        #        parameter order) gives the same array
+        if positional_prefix(case):
+            dis += check_positional(case, prefix, exp, spec, outcome)
+        # -- 1c. the other routes by which the array reaches the server: as
+        #        a synth argument (control input / OSC argument list)
+        dis += check_control_input(env, 'array', exp, spec, outcome)
 
     # -- 2. client-side evaluation
     offsets = [spec['offset']] if spec['offset'] == 0 else [spec['offset'], 0]
@@ -207,6 +331,25 @@ def _check_case(case):
         # implementation encoded (must be a number); evaluate against it
         if len(arr) > 4 and _num_eq(arr[4], arr[4]):
             L = [L[0], arr[4]]
+    adis, ats = eval_at(env, L, T, C, offsets, exp)
+    dis += adis
+    outcome['at'] = ats
+
+    # -- 3. EnvGen inputs in definition bytes
+    if case.get('def'):
+        dis += check_def(case, exp, spec, outcome)
+    if reuse in ('def-ie', 'def-ei'):
+        dis += check_def_reuse(case, exp, spec, outcome, reuse)
+    if reuse == 'def-ee':
+        dis += check_def_twice(case, exp, spec, outcome)
+    return dis, outcome
+
+
+def eval_at(env, L, T, C, offsets, exp, shape_kinds=True):
+    """_at(t) over the time grid against the demands of the property; one
+    disagreement per kind.  `offsets`: the acceptable readings of the
+    envelope's offset (first = the nominal one)."""
+    dis = []
     plans = [ref.Plan(L, T, C, off) for off in offsets]
     grid = set()
     for pl in plans:
@@ -216,13 +359,24 @@ def _check_case(case):
     seen_kinds = set()
     plan_ok = [0] * len(plans)
     plan_bad = {}
-    for t in sorted(grid):
+    times = sorted(grid)
+    # forward over the grid, then backwards (evaluation at a time does not
+    # depend on what was evaluated before): a value of the second pass is
+    # judged again only if it differs from the first one
+    fwd = {}
+    for t in times + times[::-1]:
         try:
             v = env._at(t)
         except Exception as e:
             v = _exc(e)
         pv = _plain(v)
-        ats.append(pv)
+        again = len(fwd) == len(times)
+        if again:
+            if pv == fwd[t] or (pv != pv and fwd[t] != fwd[t]):
+                continue
+        else:
+            fwd[t] = pv
+            ats.append(pv)
         ok = False
         for pi, pl in enumerate(plans):
             if ref.accepts(pl.demand(t), v):
@@ -237,19 +391,21 @@ def _check_case(case):
         segs = plans[0].segs
         shape = 'last' if si >= len(segs) else \
             ref.shape_and_curvature(segs[si][3])[0]
-        if isinstance(v, str):
-            kind = f'at-raises-{v.split(":")[0]}-shape{shape}'
+        sfx = f'-shape{shape}' if shape_kinds else ''
+        if again:
+            kind = 'at-differs-when-evaluated-again'
+        elif isinstance(v, str):
+            kind = f'at-raises-{v.split(":")[0]}{sfx}'
         elif where == 'after':
             kind = 'at-after-end'
         elif where == 'bp':
-            kind = f'at-breakpoint-shape{shape}'
+            kind = f'at-breakpoint{sfx}'
         else:
-            kind = f'at-inside-shape{shape}'
+            kind = f'at-inside{sfx}'
         if kind not in seen_kinds:
             seen_kinds.add(kind)
             dis.append((kind, list(d), pv,
                         f'_at({t}); segment {si}; expected array {exp}'))
-    outcome['at'] = ats
     # whether _at honours the offset is a don't-care, but it is ONE choice for
     # the envelope: some plan has to explain every evaluated time
     if len(plans) > 1 and not dis_has_at(dis) and \
@@ -261,12 +417,150 @@ def _check_case(case):
                     f'_at({t}): no single reading of the offset '
                     f'({[pl.offset for pl in plans]}) explains all evaluated '
                     f'times; expected array {exp}'))
+    return dis, ats
 
-    # -- 3. EnvGen inputs in definition bytes
-    if case.get('def'):
-        dis += check_def(case, exp, spec, outcome)
-    if reuse in ('def-ie', 'def-ei'):
-        dis += check_def_reuse(case, exp, spec, outcome, reuse)
+
+def check_positional(case, prefix, exp, spec, outcome):
+    try:
+        raw = make_env(case, 'pos')._envgen_format()
+    except Exception as e:
+        return [(f'{prefix}-positional-raises-{type(e).__name__}', exp,
+                 _exc(e), 'the call with its leading arguments positional '
+                 '(documented order) raised')]
+    obs = _plain(raw)
+    outcome['positional'] = obs
+    if not single_channel(obs):
+        return [(prefix + '-positional-not-single-channel', [exp], obs, '')]
+    return cmp_array(prefix + '-positional', exp, obs[0], spec['dontcare'],
+                     slot_name)
+
+
+def _numbers_of(x):
+    """OSC argument list of one array-valued synth argument -> the numbers
+    (the '[' / ']' array marks are packaging the statement says nothing
+    about)."""
+    if not isinstance(x, (list, tuple)):
+        return None
+    x = list(x)
+    if len(x) >= 2 and x[0] == '[' and x[-1] == ']':
+        x = x[1:-1]
+    return x
+
+
+def check_control_input(env, prefix, exp, spec, outcome):
+    dis = []
+    try:
+        ctl = env._as_control_input()
+        lst = []
+        env._embed_as_osc_arg(lst)
+    except Exception as e:
+        return [(f'{prefix}-control-input-raises-{type(e).__name__}', exp,
+                 _exc(e), '_as_control_input / _embed_as_osc_arg raised')]
+    for tag, got in (('control-input', _plain(ctl)),
+                     ('osc-arg', _plain(_numbers_of(lst)))):
+        outcome[tag] = got
+        if not isinstance(got, list) or len(got) != len(exp) or any(
+                not _num_eq(y, x) for i, (x, y) in enumerate(zip(exp, got))
+                if i not in spec['dontcare']):
+            dis.append((f'{prefix}-{tag}', exp, got,
+                        'the array as a synth argument'))
+    return dis
+
+
+# ---------------------------------------------------------------------------
+# Derived envelopes: an Env object that was already used (encoded / evaluated)
+# is changed through the public API (duration setter) or copied with mapped
+# levels (range / exprange / curverange).  Whatever the operation computes,
+# the resulting object IS an envelope specification (its public attributes
+# levels / times / curves / release_node / loop_node), and the statement
+# binds its encoding and its evaluation to those.
+
+def _plain_number(x):
+    return isinstance(x, (int, float)) and not isinstance(x, bool) \
+        and x == x and abs(x) != float('inf')
+
+
+def attr_spec(env):
+    """Specification read from the object's public attributes; None when it
+    is not a plain single-channel specification (then nothing is demanded)."""
+    L, T, C = env.levels, env.times, env.curves
+    if not isinstance(L, list) or not isinstance(T, list) or len(L) < 2 \
+            or len(T) != len(L) - 1:
+        return None
+    if not all(_plain_number(x) for x in L + T) or any(x < 0 for x in T):
+        return None
+    for c in ref.as_list(C):
+        if not (_plain_number(c) or c in ref.SHAPE_NUMBERS):
+            return None
+    for nd in (env.release_node, env.loop_node):
+        if nd is not None and not _plain_number(nd):
+            return None
+    if not _plain_number(env.offset):
+        return None
+    return {'levels': list(L), 'times': list(T),
+            'curves': list(C) if isinstance(C, list) else C,
+            'rel': env.release_node, 'loop': env.loop_node,
+            'offset': env.offset, 'dontcare': set()}
+
+
+PRE_USES = {'e': lambda env: env._envgen_format(),
+            'i': lambda env: env._interpolation_format(),
+            'a': lambda env: env._at(0.25),
+            'c': lambda env: env._as_control_input()}
+
+
+def check_derive(case):
+    dis, outcome = [], {}
+    op = case['op']
+    try:
+        env = make_env(case['base'])
+        for ch in case['pre']:
+            PRE_USES[ch](env)
+    except Exception as e:
+        # the base specification is checked by the other families
+        return [], {'base-raised': _exc(e)}
+    try:
+        if op[0] == 'duration':
+            env.duration = op[1]
+            objs = [('result', env)]
+        else:
+            objs = [('result', getattr(env, op[0])(*op[1:])),
+                    ('source', env)]
+    except Exception as e:
+        # the mapping itself (e.g. constant levels: empty input range) is
+        # outside the statement
+        return [], {'op-raised': _exc(e)}
+    for tag, obj in objs:
+        spec = attr_spec(obj)
+        if spec is None:
+            outcome[tag] = 'not-a-plain-specification'
+            continue
+        exp = ref.encode(spec['levels'], spec['times'], spec['curves'],
+                         spec['rel'], spec['loop'])
+        prefix = 'derive' if tag == 'result' else 'derive-source'
+        try:
+            obs = _plain(obj._envgen_format())
+        except Exception as e:
+            dis.append((f'{prefix}-raises-{type(e).__name__}', exp, _exc(e),
+                        f'{tag} of {op}: encoding raised'))
+            continue
+        outcome[tag] = [spec['levels'], spec['times'], obs]
+        if not single_channel(obs):
+            dis.append((prefix + '-not-single-channel', [exp], obs, ''))
+            continue
+        d = cmp_array(prefix, exp, obs[0], set(), slot_name)
+        dis += [(k, e_, o_, f'{tag} of {op}; attributes {spec["levels"]} '
+                 f'{spec["times"]}; {det}') for k, e_, o_, det in d]
+        dis += check_control_input(obj, prefix, exp, spec, {})[:1]
+        if tag == 'result':
+            offsets = [spec['offset']] if spec['offset'] == 0 \
+                else [spec['offset'], 0]
+            adis, ats = eval_at(obj, spec['levels'], spec['times'],
+                                spec['curves'], offsets, exp,
+                                shape_kinds=False)
+            dis += [('derive-' + k, e_, o_, f'{tag} of {op}; {det}')
+                    for k, e_, o_, det in adis]
+            outcome['at'] = ats
     return dis, outcome
 
 
@@ -300,6 +594,10 @@ def check_def(case, exp, spec, outcome):
         if sel == 'ar':
             sig = EnvGen.ar(env, GATE, LSCALE, LBIAS, TSCALE, DONE)
             Out.ar(0, sig)
+        elif sel == 'ar0':      # only the envelope given
+            Out.ar(0, EnvGen.ar(env))
+        elif sel == 'kr0':
+            Out.kr(0, EnvGen.kr(env, done_action=DONE))
         else:
             sig = EnvGen.kr(env, GATE, LSCALE, LBIAS, TSCALE, DONE)
             Out.kr(0, sig)
@@ -422,6 +720,56 @@ def check_def_reuse(case, exp, spec, outcome, order):
     return dis
 
 
+def check_def_twice(case, exp, spec, outcome):
+    """One definition in which ONE Env object feeds two EnvGen units (kr with
+    all arguments, then ar with the envelope only)."""
+    from sc3.synth.synthdef import SynthDef
+    from sc3.synth.ugens.envgen import EnvGen
+    from sc3.synth.ugens import Out
+
+    def graph():
+        env = make_env(case)
+        a = EnvGen.kr(env, GATE, LSCALE, LBIAS, TSCALE, DONE)
+        b = EnvGen.ar(env)
+        Out.kr(0, a)
+        Out.ar(0, b)
+
+    try:
+        sd = SynthDef('c19', graph)
+        data = _def_bytes(sd)
+    except Exception as e:
+        return [(raise_kind('def', e, case), exp, _exc(e),
+                 'building a definition with two EnvGen raised')]
+    try:
+        defs = scgf.decode(data)['defs']
+    except Exception as e:
+        return [('def-unreadable', 'SCgf v2', _exc(e), data.hex()[:400])]
+    units = [u for d in defs for u in d['units'] if u['name'] == 'EnvGen']
+    if len(defs) != 1 or len(units) != 2:
+        return [('def-units-missing', 'two EnvGen units',
+                 [[u['name'] for u in d['units']] for d in defs], '')]
+    consts = defs[0]['constants']
+    want = [f32(x) for x in exp]
+    dis = []
+    outcome['def_inputs'] = []
+    for u in units:
+        vals = [consts[inp[1]] if inp[0] == 'c' and 0 <= inp[1] < len(consts)
+                else list(inp) for inp in u['inputs']]
+        outcome['def_inputs'].append(vals)
+        if len(vals) != 5 + len(want):
+            dis.append(('def-input-count', 5 + len(want), len(vals),
+                        f'inputs {vals}'))
+            break
+        tail = vals[5:]
+        bad = [i for i, (x, y) in enumerate(zip(want, tail))
+               if i not in spec['dontcare'] and not _num_eq(y, x)]
+        if bad:
+            dis.append(('def-trailing-inputs', want, tail,
+                        f'index {bad[0]} ({slot_name(bad[0])}) differs'))
+            break
+    return dis
+
+
 # ---------------------------------------------------------------------------
 # Non-triviality (DESIGN 2.6, C19 row: the input lies on a boundary - wrapped
 # list, shape-domain edge, node present - or mixes types)
@@ -429,16 +777,23 @@ def check_def_reuse(case, exp, spec, outcome, order):
 def is_nontrivial(case):
     if case.get('reuse'):
         return True     # one object used for several encodings
+    if case['f'] == 'derive':
+        return bool(case['pre'])    # the object was used before it changed
+    if case['f'] == 'seq':
+        return True                 # another envelope was encoded just before
     if case['f'] == 'env':
         n = len(case['levels']) - 1
-        t, c = case['times'], case['curves']
+        t, c = case['times'], _dflt(case['curves'], 'lin')
         wrapped = (isinstance(t, list) and len(t) < n) or \
                   (isinstance(c, list) and len(c) < n)
         mixed = isinstance(c, list) and \
             len({isinstance(x, str) for x in c}) == 2
-        node = case['rel'] is not None or case['loop'] is not None
+        node = _dflt(case['rel'], None) is not None or \
+            _dflt(case['loop'], None) is not None or \
+            _dflt(case.get('offset', D), 0) != 0
         edge = any(not ref.on_domain(a, b, cv)
                    for a, b, _, cv in ref.segments(case['levels'], t, c))
+        edge = edge or any(x < 0 for x in case['levels'])
         zero = 0 in ref.as_list(t)
         numtypes = len({type(x) for x in case['levels']}) == 2
         return wrapped or mixed or node or edge or zero or numtypes
@@ -447,7 +802,7 @@ def is_nontrivial(case):
         return 0 < len(a) < len(ref.CTOR_PARAMS[name])   # defaults + explicit
     if name == 'step':
         return bool(a) and ('release_level' in a or 'loop_level' in a
-                            or 'levels' in a)
+                            or 'levels' in a or 'offset' in a)
     key = 'pairs' if name == 'pairs' else 'xyc'
     xs = [p[0] for p in a[key]]
     return xs != sorted(xs) or xs[0] != 0 or len(set(xs)) < len(xs) or \
@@ -485,7 +840,7 @@ def node_options(n, p):
         r = [None] + list(range(n + 1))
         return [[a, b] for a in r for b in r]
     return [x for x in p['nodes']
-            if all(v is None or v <= n for v in x)]
+            if all(v is None or v == D or v <= n for v in x)]
 
 
 def gen_env(p, shard, of):
@@ -499,6 +854,9 @@ def gen_env(p, shard, of):
         nopts = node_options(n, p)
         alpha = p['L'][str(n)] if isinstance(p['L'], dict) else p['L']
         for levels in itertools.product(alpha, repeat=n + 1):
+            if 'Lrequire' in p and not any(x in p['Lrequire']
+                                           for x in levels):
+                continue    # keeps the family disjoint from env-main
             for t in topts:
                 mine = idx % of == shard
                 idx += 1
@@ -506,12 +864,21 @@ def gen_env(p, shard, of):
                     continue
                 for c in copts:
                     for rel, loop in nopts:
-                        case = {'f': 'env', 'levels': list(levels),
-                                'times': t, 'curves': c, 'rel': rel,
-                                'loop': loop}
-                        if defsel:
-                            case['def'] = defsel
-                        yield case
+                        for off in p.get('offsets', [None]):
+                            for style in p.get('styles', [None]):
+                                if style == 'pos' and p.get('pos_omits') \
+                                        and D not in (c, rel, loop):
+                                    continue    # an ordinary call
+                                case = {'f': 'env', 'levels': list(levels),
+                                        'times': t, 'curves': c, 'rel': rel,
+                                        'loop': loop}
+                                if off is not None:
+                                    case['offset'] = off
+                                if style:
+                                    case['style'] = style
+                                if defsel:
+                                    case['def'] = defsel
+                                yield case
 
 
 def gen_ctor_params(p, shard, of):
@@ -520,9 +887,12 @@ def gen_ctor_params(p, shard, of):
     name = p['name']
     params = [k for k, _ in ref.CTOR_PARAMS[name]]
     menus = [p['menus'][k] for k in params]
+    excl = p.get('exclude')
     for idx, combo in enumerate(itertools.product(*menus)):
         if idx % of != shard:
             continue
+        if excl and all(v in excl[k] for k, v in zip(params, combo)):
+            continue        # a case of the main family of this constructor
         args = {k: v for k, v in zip(params, combo) if v != D}
         case = {'f': 'ctor', 'name': name, 'args': args}
         if p.get('def'):
@@ -549,6 +919,10 @@ def gen_step(p, shard, of):
             if k == 2:          # times left to the documented default [1, 1]
                 cases.append({'levels': list(lv)})
                 cases.append({'levels': list(lv), 'release_level': 1})
+                for off in p.get('offsets', ()):
+                    cases.append({'levels': list(lv), 'offset': off})
+                    cases.append({'levels': list(lv), 'times': [0.5, 1],
+                                  'loop_level': 0, 'offset': off})
     for a in cases:
         mine = idx % of == shard
         idx += 1
@@ -599,8 +973,69 @@ def gen_points(p, shard, of):
                         yield case
 
 
+def derive_bases(p):
+    bases = []
+    for n in p['n']:
+        for levels in itertools.product(p['L'], repeat=n + 1):
+            for t in p['times']:
+                if isinstance(t, list) and len(t) > n:
+                    continue
+                for c in p['curves']:
+                    if isinstance(c, list) and len(c) > n:
+                        continue
+                    for rel, loop in p['nodes']:
+                        if any(v is not None and v > n for v in (rel, loop)):
+                            continue
+                        bases.append({'f': 'env', 'levels': list(levels),
+                                      'times': t, 'curves': c, 'rel': rel,
+                                      'loop': loop})
+    for name, args in p['ctors']:
+        bases.append({'f': 'ctor', 'name': name, 'args': args})
+    return bases
+
+
+def gen_derive(p, shard, of):
+    """Every base envelope x every earlier use of the object ('' none, e
+    EnvGen array, i IEnvGen array, a evaluation, c control input) x every
+    changing operation."""
+    for idx, base in enumerate(derive_bases(p)):
+        if idx % of != shard:
+            continue
+        for op in p['ops']:
+            for pre in p['pre']:
+                yield {'f': 'derive', 'base': base, 'pre': pre, 'op': op}
+
+
+def _subst(x, u):
+    if isinstance(x, list):
+        return [_subst(i, u) for i in x]
+    if isinstance(x, dict):
+        return {k: _subst(v, u) for k, v in x.items()}
+    return u if x == 'U' else x
+
+
+def gen_seq(p, shard, of):
+    """All ordered pairs of different specifications of a small set.  The
+    top level 'U' of both specifications is a value that no other pair uses
+    (2 + k/8192, exact), so that whatever a violation of the second one
+    depends on was done by the first one of the SAME case and the case
+    replays on its own."""
+    specs = [sp for sp in derive_bases(p) if "'U'" in repr(sp)]
+    idx = 0
+    for a in specs:
+        for b in specs:
+            if a == b:
+                continue
+            mine = idx % of == shard
+            idx += 1
+            if mine:
+                u = 2 + idx / 8192
+                yield {'f': 'seq', 'first': _subst(a, u),
+                       'second': _subst(b, u)}
+
+
 GENS = {'env': gen_env, 'ctor': gen_ctor_params, 'step': gen_step,
-        'points': gen_points}
+        'points': gen_points, 'derive': gen_derive, 'seq': gen_seq}
 
 
 def families(tier):
@@ -659,11 +1094,11 @@ def families(tier):
     lv = [D, 0.5, 2] if q else [D, 0.5, 2, 1]
     cv = [D, 'sin', 2] if q else [D, 'sin', 2, 'exp']
     fams.append(('ctor-triangle', 'ctor', {
-        'name': 'triangle', 'def': 'kr',
+        'name': 'triangle', 'def': 'kr0',
         'menus': {'dur': [D, 0.5, 2, 1, 0.25], 'level': [D, 0.5, 2, 0, -1]}},
         4))
     fams.append(('ctor-sine', 'ctor', {
-        'name': 'sine', 'def': 'kr',
+        'name': 'sine', 'def': 'ar0',
         'menus': {'dur': [D, 0.5, 2, 1, 0.25], 'level': [D, 0.5, 2, 0, -1]}},
         4))
     fams.append(('ctor-perc', 'ctor', {
@@ -697,10 +1132,10 @@ def families(tier):
                   'curve': cv, 'bias': bias}}, 64))
     fams.append(('ctor-step', 'step', {
         'name': 'step', 'def': 'kr', 'L': [0, 1, 2], 'T': [0.5, 1],
-        'maxlen': 2 if q else 3}, 8))
+        'maxlen': 2 if q else 3, 'offsets': [0.5, 3]}, 8))
     fams.append(('ctor-pairs', 'points', {
         'name': 'pairs', 'def': 'kr', 'X': [0, 0.5, 1, 2], 'Y': [0, 1, 2],
-        'maxpts': 3 if q else 4, 'Cscalar': ['sin', -4, 'exp'],
+        'maxpts': 3 if q else 4, 'Cscalar': ['sin', -4, 'exp', 0],
         'Clist': ['lin', -4] if q else ['lin', -4, 'exp']}, 16))
     fams.append(('ctor-xyc', 'points', {
         'name': 'xyc', 'def': None, 'X': [0, 0.5, 1, 2], 'Y': [0, 1, 2],
@@ -751,16 +1186,133 @@ def families(tier):
                   'curve': [D] + SCALAR_CURVES}}, 4))
     fams.append(('ctor-step-reuse', 'step', {
         'name': 'step', 'L': [0, 1], 'T': [0.5, 1], 'maxlen': 2,
-        'reuse': REUSE_MODES}, 4))
+        'offsets': [0.5], 'reuse': REUSE_MODES}, 4))
     fams.append(('ctor-pairs-reuse', 'points', {
         'name': 'pairs', 'X': [0.5, 1, 2], 'Y': [0, 1], 'maxpts': 3,
         'Cscalar': ['sin'], 'Clist': ['lin', -4], 'reuse': REUSE_MODES}, 8))
+    # 7. durations that are not dyadic fractions: breakpoint times are
+    #    rounded sums, `_at` exactly on them must still give the level
+    ND = [0.1, 0.2, 0.3, 0.7]
+    fams.append(('env-nondyadic', 'env', {
+        'n': [1, 2, 3],
+        'L': {'1': [0, 1, 2], '2': [0, 1, 2], '3': [0, 2] if q else [0, 1, 2]},
+        'T': ND,
+        'Cscalar': ['lin', 'hold', 'step', 'sin', 'wel', -4],
+        'Clists': [['hold', 'lin'], ['lin', 'hold', 'step']],
+        'nodes': [[None, None]]}, 32))
+    fams.append(('ctor-pairs-nondyadic', 'points', {
+        'name': 'pairs', 'def': None, 'X': [0.1, 0.3, 0.4, 1.1],
+        'Y': [0, 1, 2], 'maxpts': 3, 'Cscalar': ['hold'],
+        'Clist': ['lin', 'hold']}, 16))
+    fams.append(('ctor-xyc-nondyadic', 'points', {
+        'name': 'xyc', 'def': None, 'X': [-0.5, 0.1, 0.3, 1.1],
+        'Y': [0, 1], 'maxpts': 3, 'Clist': ['lin', 'hold', 'step']}, 16))
+    # 8. negative levels, larger and fractional curvatures
+    fams.append(('env-negative', 'env', {
+        'n': [1, 2], 'L': [-2, -1, 1] if q else [-2, -1, 0, 1],
+        'Lrequire': [-2, -1] if q else [-2], 'T': [0.5, 1],
+        'Cscalar': SCALAR_CURVES + [-20, 8.5, 0.5],
+        'Clists': [['exp', 0.5], [-20, 'cub']],
+        'nodes': [[None, None]]}, 16))
+    # 9. arguments left out (documented defaults) / given by keyword; the
+    #    offset argument
+    fams.append(('env-call-styles', 'env', {
+        'n': [1, 2] if q else [1, 2, 3], 'L': [0, 1] if q else [0, 1, 2],
+        'T': [0.5], 'Tscalar': [2],
+        'Cscalar': [D, 'sin', -4], 'Clists': [['sin', 2]],
+        'nodes': [[D, D], [None, None], [1, D], [D, 0], [1, 0], [0, 1]],
+        'styles': ['pos', 'kw'], 'pos_omits': True, 'def': 'kr'}, 8))
+    fams.append(('env-offset', 'env', {
+        'n': [1, 2], 'L': [0, 1, 2], 'T': [0.5, 1], 'Tscalar': [2],
+        'Cscalar': ['lin', 'hold', -4], 'Clists': [['sin', 2]],
+        'nodes': [[None, None], [1, 0]], 'offsets': [0.5, 3, -0.5],
+        'styles': ['pos', 'kw']}, 16))
+    fams.append(('env-offset-reuse', 'env', {
+        'n': [1, 2], 'L': [0, 2], 'T': [0.5], 'Tscalar': [2],
+        'Cscalar': ['lin', -4], 'Clists': [['sin', 2]],
+        'nodes': [[None, None], [1, 0]], 'offsets': [0.5, -0.5],
+        'reuse': REUSE_MODES}, 8))
+    # 10. zero / negative constructor parameters (instant attack, silent
+    #     peak, inverted envelope) with the shapes that are sensitive to a
+    #     zero-length segment
+    z_t, z_l = ([D, 0], [D, 0, -1]) if q else ([D, 0, 0.5], [D, 0, -1, 2])
+    z_t5 = z_t if 0.5 in z_t else z_t + [0.5]
+    z_c = [D, 'hold', 'step', 2]
+    main_menus = {f[2]['name']: f[2]['menus'] for f in fams
+                  if f[1] == 'ctor' and f[0] == 'ctor-' + f[2]['name']}
+    fams.append(('ctor-perc-zero', 'ctor', {
+        'name': 'perc', 'def': 'kr',
+        'exclude': main_menus['perc'],
+        'menus': {'attack_time': z_t5, 'release_time': z_t5,
+                  'level': z_l, 'curve': z_c}}, 8))
+    fams.append(('ctor-linen-zero', 'ctor', {
+        'name': 'linen', 'def': 'kr',
+        'exclude': main_menus['linen'],
+        'menus': {'attack_time': z_t, 'sustain_time': z_t5,
+                  'release_time': z_t, 'level': z_l, 'curve': z_c}}, 8))
+    fams.append(('ctor-cutoff-zero', 'ctor', {
+        'name': 'cutoff', 'def': 'kr',
+        'exclude': main_menus['cutoff'],
+        'menus': {'release_time': z_t, 'level': z_l,
+                  'curve': [D] + SCALAR_CURVES}}, 4))
+    fams.append(('ctor-asr-zero', 'ctor', {
+        'name': 'asr', 'def': 'kr',
+        'exclude': main_menus['asr'],
+        'menus': {'attack_time': z_t5, 'sustain_level': z_l,
+                  'release_time': z_t5, 'curve': z_c}}, 8))
+    fams.append(('ctor-adsr-zero', 'ctor', {
+        'name': 'adsr', 'def': 'kr',
+        'exclude': main_menus['adsr'],
+        'menus': {'attack_time': z_t, 'decay_time': z_t,
+                  'sustain_level': [D, 0, 1], 'release_time': z_t,
+                  'peak_level': z_l, 'curve': [D, 'hold', 0],
+                  'bias': [D, 0, -1]}}, 16))
+    fams.append(('ctor-dadsr-zero', 'ctor', {
+        'name': 'dadsr', 'def': None,
+        'exclude': main_menus['dadsr'],
+        'menus': {'delay_time': z_t, 'attack_time': z_t, 'decay_time': z_t,
+                  'sustain_level': [D, 0, 1], 'release_time': z_t,
+                  'peak_level': z_l, 'curve': [D, 'hold', 2],
+                  'bias': [D, 0, -1]}}, 16))
+    # 11. an object that was already used is changed (duration setter) or
+    #     copied with mapped levels (range / exprange / curverange)
+    fams.append(('env-derive', 'derive', {
+        'n': [1, 2] if q else [1, 2, 3],
+        'L': [0, 1, 2] if q else [0, 1, 2, -1],
+        'times': [0.5, [1, 2]],
+        'curves': ['lin', -4, ['sin', 'hold']],
+        'nodes': [[None, None], [1, 0]],
+        'ctors': [['perc', {}], ['adsr', {}], ['linen', {'level': 2}],
+                  ['step', {}],
+                  ['pairs', {'pairs': [[0.5, 0], [1, 2], [2, 1]]}]],
+        'ops': [['range'], ['range', -1, 3], ['exprange'],
+                ['exprange', 0.5, 2], ['curverange'],
+                ['curverange', 0, 4, 2], ['duration', 3],
+                ['duration', 0.75]],
+        'pre': ['', 'e', 'i', 'a', 'c', 'ei']}, 16))
+    # 12. another envelope was encoded just before (all ordered pairs of a
+    #     small set of specifications that differ in one or more fields)
+    fams.append(('env-after-other', 'seq', {
+        'n': [1] if q else [1, 2], 'L': [0, 'U'], 'times': [1, [0.5]],
+        'curves': ['lin', 'sin', -4],
+        'nodes': [[None, None], [1, 0], [0, None]],
+        'ctors': [['perc', {'level': 'U'}],
+                  ['perc', {'level': 'U', 'curve': 'sin'}],
+                  ['adsr', {'peak_level': 'U'}],
+                  ['adsr', {'peak_level': 'U', 'bias': 0.5}],
+                  ['asr', {'sustain_level': 'U'}], ['cutoff', {'level': 'U'}],
+                  ['cutoff', {'level': 'U', 'curve': 'exp'}],
+                  ['step', {'levels': [0, 'U'], 'times': [1, 1]}],
+                  ['step', {'levels': [0, 'U'], 'times': [1, 1],
+                            'loop_level': 0}],
+                  ['pairs', {'pairs': [[0.5, 0], [1, 'U'], [2, 1]]}],
+                  ['pairs', {'pairs': [[0, 0], [1, 'U'], [2, 1]]}]]}, 16))
     return fams
 
 
 # ---------------------------------------------------------------------------
 
-REUSE_MODES = ['ie', 'eie', 'def-ie', 'def-ei']
+REUSE_MODES = ['ie', 'eie', 'def-ie', 'def-ei', 'def-ee']
 
 
 def with_reuse(cases, modes):
@@ -792,26 +1344,58 @@ def work(job):
         if case.get('def') or str(case.get('reuse')).startswith('def'):
             acc.count('definitions_decoded')
     acc.count('cases_' + job['family'], acc.ev)
-    return acc.result()
+    res = acc.result()
+    res['family'] = job['family']
+    return res
+
+
+def call_text(case):
+    def args_text(pos, kw):
+        return ', '.join([repr(v) for v in pos] +
+                         [f'{k}={v!r}' for k, v in kw.items()])
+    if case['f'] == 'env':
+        given = env_given(case)
+        if case.get('style') == 'kw':
+            return f'Env({args_text([], given)})'
+        return f'Env({args_text(*split_call(ENV_PARAMS, given))})'
+    if case.get('style') == 'pos':
+        return (f"Env.{case['name']}("
+                f"{args_text(*split_call(ctor_order(case['name']), case['args']))})")
+    return f"Env.{case['name']}({args_text([], case['args'])})"
 
 
 def standalone(case):
-    if case['f'] == 'env':
-        call = (f"Env({case['levels']!r}, {case['times']!r}, "
-                f"{case['curves']!r}, {case['rel']!r}, {case['loop']!r})")
-    else:
-        args = ', '.join(f'{k}={v!r}' for k, v in case['args'].items())
-        call = f"Env.{case['name']}({args})"
-    return ("import sc3; sc3.init('nrt')\n"
-            "from sc3.synth.envelope import Env\n"
-            f"e = {call}\n"
+    head = ("import sc3; sc3.init('nrt')\n"
+            "from sc3.synth.envelope import Env\n")
+    if case['f'] == 'seq':
+        return (head + f"o = {call_text(case['first'])}\n"
+                "o._envgen_format(); o._interpolation_format(); o._at(0.25)\n"
+                f"e = {call_text(case['second'])}\n"
+                "print(e._envgen_format())\n"
+                "print([e._at(k / 8) for k in range(0, 33)])\n")
+    if case['f'] == 'derive':
+        uses = {'e': 'e._envgen_format()', 'i': 'e._interpolation_format()',
+                'a': 'e._at(0.25)', 'c': 'e._as_control_input()'}
+        op = case['op']
+        txt = head + f"e = {call_text(case['base'])}\n"
+        txt += ''.join(uses[ch] + '\n' for ch in case['pre'])
+        if op[0] == 'duration':
+            txt += f'e.duration = {op[1]!r}\nd = e\n'
+        else:
+            txt += (f"d = e.{op[0]}({', '.join(repr(x) for x in op[1:])})\n")
+        return txt + ("print(d.levels, d.times, d.curves)\n"
+                      "print(d._envgen_format())\n"
+                      "print([d._at(k / 8) for k in range(0, 33)])\n")
+    return (head + f"e = {call_text(case)}\n"
             "print(e._envgen_format())\n"
+            "print(e._as_control_input())\n"
             "print([e._at(k / 8) for k in range(0, 33)])\n")
 
 
 def replay(job):
     dis, outcome = check_case(job['case'])
-    return {'violates': any(d[0] == job['kind'] for d in dis),
+    return {'violates': any(d[0] == job['kind'] or job['kind'] == ANY_KIND
+                            for d in dis),
             'disagreements': [[d[0], repr(d[1]), repr(d[2]), d[3]]
                               for d in dis],
             'outcome': outcome}
@@ -826,12 +1410,26 @@ def main(ctx):
         'all defaults) is built through the real Env API; the server array, '
         '_at(t) on multiples of 1/8 plus every breakpoint over '
         '[-0.5, total+1], and (def sub-families) the EnvGen inputs decoded '
-        'from the definition bytes are compared with the reference. '
+        'from the definition bytes are compared with the reference. Every '
+        'array is also read through _as_control_input / _embed_as_osc_arg '
+        '(synth argument route); constructor calls are repeated with their '
+        'leading arguments positional (documented order); Env(...) also '
+        'with omitted arguments and by keyword; the grid is evaluated '
+        'forwards and then backwards. Further families: durations that are '
+        'not dyadic (0.1 0.2 0.3 0.7), negative levels, curvatures -20 / '
+        '0.5 / 8.5, the offset argument, zero and negative constructor '
+        'parameters, an already used object changed by the duration setter '
+        'or copied by range/exprange/curverange (encoding and evaluation '
+        'must follow the object\'s own levels/times/curves), every ordered '
+        'pair of a small set of specifications (second one checked after '
+        'the first was encoded), one Env feeding two EnvGen units. '
         'Non-trivial = a time/curve list is wrapped, names and numbers are '
-        'mixed, a node is given, a segment is on the edge of its shape '
-        'domain, a duration is 0, int and float levels are mixed; for '
-        'constructors: defaults and explicit arguments are mixed, points '
-        'are unsorted / offset, or a level index is given.')
+        'mixed, a node or offset is given, a segment is on the edge of its '
+        'shape domain or a level is negative, a duration is 0, int and '
+        'float levels are mixed; for constructors: defaults and explicit '
+        'arguments are mixed, points are unsorted / offset, or a level '
+        'index is given; derived / sequence cases: the object (another '
+        'object) was used before.')
     ctx.assumptions += [
         'reference mc/oracles/env_ref.py: EnvGen array layout, server shape '
         'numbers and constructor breakpoints typed from the Env/EnvGen '
@@ -842,14 +1440,60 @@ def main(ctx):
         'non-zero; sqr/cub: non-negative); node numbers of Env.step when a '
         'level index is given; end level of Env.cutoff with an exponential '
         'curve; whether _at honours the offset of pairs/xyc; a step segment '
-        'may show either neighbour at its starting breakpoint',
+        'may show either neighbour at its starting breakpoint; the \'[\' '
+        '\']\' marks around the OSC argument list; what range / exprange / '
+        'curverange / the duration setter compute (only that the resulting '
+        'object encodes and evaluates as its own attributes say); a level '
+        'index given to Env.step only has to be encoded as a number other '
+        'than -99',
         'multichannel envelopes, UGen-valued levels, IEnvGen format and '
         'circle/cyclic are outside the statement and not enumerated']
     ctx.bounds['time_grid'] = 'multiples of 0.125 in [-0.5, total+1] + breakpoints'
-    for fname, gen, params, nshards in families(ctx.tier):
-        jobs = [{'family': fname, 'gen': gen, 'params': params, 'shard': i,
+    fams = families(ctx.tier)
+    # the history family first, in fresh workers: if one envelope disturbs
+    # the next one, the case-by-case families below would report violations
+    # that depend on what their worker did before and do not replay
+    def jobs_of(fam):
+        fname, gen, params, nshards = fam
+        return [{'family': fname, 'gen': gen, 'params': params, 'shard': i,
                  'of': nshards} for i in range(nshards)]
-        progenum.run(ctx, MODNAME, 'work', jobs, mode='nrt', bound=fname)
+
+    for fam in [f for f in fams if f[1] == 'seq']:
+        progenum.run(ctx, MODNAME, 'work', jobs_of(fam), mode='nrt',
+                     bound=fam[0])
+    if ctx.violations and history_dependent(ctx):
+        ctx.caps.append('an envelope encoded after another one is '
+                        'wrong: remaining families not run')
+        print('C19: envelopes are not independent of each other; '
+              'remaining families skipped', flush=True)
+        return
+    # all other families as one pool of shard jobs (no barrier between
+    # families); evaluations are still booked per family
+    jobs = [j for f in fams if f[1] != 'seq' for j in jobs_of(f)]
+    order = core.shard_order(len(jobs), ctx.seed)
+    for res in ctx.map('nrt', MODNAME, 'work', [jobs[i] for i in order]):
+        ctx.violation_count += res.get('nviol', 0) - len(res.get('viol', ()))
+        ctx.absorb(res, res['family'])
+
+
+ANY_KIND = '*any*'
+
+
+def history_dependent(ctx):
+    """Is some violation of the sequence family absent when its second
+    specification is checked alone in a brand new process?  (Otherwise the
+    defect is an ordinary one and every family is run as usual.)"""
+    import sys
+    module = sys.modules[__name__]
+    for kind in sorted(ctx.violations):
+        case = ctx.violations[kind]['case']
+        if case.get('f') != 'seq':
+            continue
+        alone = core._replay_once(module, {'kind': ANY_KIND,
+                                           'case': case['second']})
+        if not alone.get('violates'):
+            return True
+    return False
 
 
 # ---------------------------------------------------------------------------
@@ -868,6 +1512,14 @@ def _scalar_zero_times(v):
     return v['case'].get('f') == 'env' and v['case'].get('times') == 0
 
 
+def _derived_after_use(v):
+    """The object had produced an array (directly, or through _at /
+    _as_control_input, which read it) before it was changed or copied."""
+    c = v['case']
+    return c.get('f') == 'derive' and bool(c.get('pre'))
+
+
 PREDICATES = {'shape_name_is': _shape_name_is,
               'step_without_release_level': _step_defaults,
-              'scalar_zero_times': _scalar_zero_times}
+              'scalar_zero_times': _scalar_zero_times,
+              'derived_after_use': _derived_after_use}
